@@ -12,6 +12,7 @@ point lies between its invocation and its return by construction.
 PARTIAL with respect to schedules: the theorem covers every interleaving of the abstract
 system; the implementation is observed on the schedules the harness provokes.
 -/
+import GoNfsd.Model.OpCache
 import GoNfsd.Model.Locks
 import GoNfsd.Lemmas.Serial
 import GoNfsd.Gen.Skeleton
@@ -273,5 +274,39 @@ example : Disciplined empty [.acquire 1 5, .commit 1 [(5, 7)] false true, .relea
   simp [Disciplined, step, empty, upd]
 
 end reveal
+
+/-! ### the journal operation's private copies (model M16) -/
+
+section opcache
+open GoNfsd.Model.OpCache
+
+/-- WHAT A TRANSACTION READS UNDER A LOCK IS WHAT IS COMMITTED, although the journal operation answers from its private
+    copies: for every history of one operation's lock acquisitions, releases and reads of an object and of other
+    transactions' commits to it, if the operation is TWO-PHASE (no lock is taken after one was given back) and reads the
+    object only while it holds the lock, every read returns the committed value of that moment.  Both hypotheses are what
+    the lock-trace validators check on every recorded transaction (`not-two-phase`, reads under the lock: the slot rule). -/
+theorem reads_under_a_two_phase_lock_are_current (evs : List GoNfsd.Model.OpCache.Ev)
+    (h2 : twoPhase false evs = true) (hw : wellLocked false evs = true) :
+    ∀ p ∈ go {} evs, p.1 = p.2 :=
+  reads_current evs {} false init_inv h2 hw
+
+/-- without two-phase locking it is false: the operation reads, gives the lock back, another transaction commits 7,
+    the operation takes the lock again and reads — its own stale copy (seeded changes C10o, C04o, C13j, C03k) -/
+theorem a_relocking_transaction_reads_its_stale_copy :
+    GoNfsd.Model.OpCache.go {} [.acquire, .read, .release, .otherCommit 7, .acquire, .read] = [(0, 0), (0, 7)] := by decide
+
+/-- and without reading under the lock: a read before the lock is taken pins a copy that the locked part of the
+    transaction then uses (seeded change C17m: `simple` WRITE reads the inode before `Acquire`) -/
+theorem a_read_before_the_lock_pins_a_stale_copy :
+    GoNfsd.Model.OpCache.go {} [.read, .otherCommit 7, .acquire, .read] = [(0, 7)] := by decide
+
+example : twoPhase false [.acquire, .read, .release, .otherCommit 7, .acquire, .read] = false := by decide
+example : wellLocked false [.read, .otherCommit 7, .acquire, .read] = false := by decide
+/-- non-vacuity: a two-phase, well-locked history with commits of others before and after -/
+example : twoPhase false [.otherCommit 3, .acquire, .read, .otherCommit 4, .read, .release, .otherCommit 5] = true ∧
+    wellLocked false [.otherCommit 3, .acquire, .read, .otherCommit 4, .read, .release, .otherCommit 5] = true ∧
+    GoNfsd.Model.OpCache.go {} [.otherCommit 3, .acquire, .read, .otherCommit 4, .read, .release, .otherCommit 5] = [(3, 3), (3, 3)] := by decide
+
+end opcache
 
 end GoNfsd.Props.C03
